@@ -36,8 +36,13 @@ def translate(ctx):
     if text is not None:
         info['changed'] = C.write_if_changed(path, text)
     else:
-        info['note'] = ('source shape not recognised; the previous Generated/Chunks.v is kept and the correspondence run alone '
-                        'ties the index arithmetic of the model to the code')
+        import subprocess
+        committed = subprocess.run(['git', '-C', C.VERIF, 'show', 'HEAD:coq/Generated/Chunks.v'], stdout=subprocess.PIPE,
+                                   stderr=subprocess.DEVNULL, text=True).stdout
+        if 'gen_greedy_enabled' in committed:     # only a committed file that already has all the pieces the proofs use
+            info['restored_committed_file'] = C.restore_generated('coq/Generated/Chunks.v')
+        info['note'] = ('source shape not recognised; the committed (else the previous) Generated/Chunks.v is used and the '
+                        'correspondence run alone ties the index arithmetic of the model to the code')
     return {'Chunks': info}
 
 # --------------------------------------------------------------------------- geometry helpers (generator only)
